@@ -1178,6 +1178,12 @@ class BeltStore(Store):
 
         Computes delay using same logic as for existing items.
         """
+        # A stopped non-accumulating belt does not move at all: the new item stops where it entered
+        # (closing the gap to the item ahead is what an accumulating belt does).
+        if self.noaccumulation_mode_on == True:
+            item_id = item[0].id if hasattr(item[0], 'id') else str(id(item))
+            self._interrupt_specific_item(item_id, "New item during interruption (no accumulation)")
+            return
         
 
         # Build the updated belt pattern with new item
